@@ -5,6 +5,7 @@ import (
 	"os"
 	"path/filepath"
 	"reflect"
+	"regexp"
 	"sort"
 	"strings"
 	"time"
@@ -14,6 +15,7 @@ import (
 	"github.com/relex/gotils/promexporter/promreg"
 	"github.com/relex/slog-agent/base"
 	"github.com/relex/slog-agent/base/bsupport"
+	"github.com/relex/slog-agent/defs"
 	"github.com/relex/slog-agent/run"
 	"github.com/vmihailenco/msgpack/v4"
 )
@@ -23,7 +25,6 @@ import (
 type aReference struct {
 	conf   run.Config
 	schema base.LogSchema
-	tag    string
 	cache  map[string]*aRefResult
 }
 
@@ -31,6 +32,7 @@ type aRefResult struct {
 	entry   *forwardprotocol.EventEntry
 	dropped bool // dropped by a transform
 	failed  bool // rejected by the parser
+	size    int  // serialized length
 }
 
 func newAReference(yaml string) (*aReference, error) {
@@ -51,12 +53,20 @@ func newAReference(yaml string) (*aReference, error) {
 }
 
 // eval processes one framed message (no trailing newline) on a pipeline built from scratch
-func (ref *aReference) eval(message string) *aRefResult {
+func (ref *aReference) eval(message string) (res *aRefResult) {
 	if r, ok := ref.cache[message]; ok {
 		return r
 	}
-	res := &aRefResult{}
+	res = &aRefResult{}
 	ref.cache[message] = res
+	defer func() {
+		// the sequential code itself may panic on hostile input (that is what C07 reports from inside the agent); the
+		// reference then simply has no opinion
+		if p := recover(); p != nil {
+			res.failed = true
+			res.entry = nil
+		}
+	}()
 	mf := promreg.NewMetricFactory("ref_", nil, nil)
 	alloc := base.NewLogAllocator(ref.schema, 1)
 	inputCounter := base.NewLogInputCounter(mf.AddOrGetPrefix("input_", nil, nil))
@@ -80,6 +90,7 @@ func (ref *aReference) eval(message string) *aRefResult {
 		return res
 	}
 	stream := serializer.SerializeRecord(record)
+	res.size = len(stream)
 	var e forwardprotocol.EventEntry
 	if err := msgpack.Unmarshal(stream, &e); err != nil {
 		res.failed = true
@@ -90,6 +101,9 @@ func (ref *aReference) eval(message string) *aRefResult {
 }
 
 func sameEvent(a, b *forwardprotocol.EventEntry, compareTime bool) string {
+	if a == nil || b == nil {
+		return "no reference event"
+	}
 	if compareTime && !a.Time.Equal(b.Time.Time) {
 		return fmt.Sprintf("time %v vs reference %v", a.Time.UTC(), b.Time.UTC())
 	}
@@ -138,14 +152,137 @@ func decodeChunkFile(data []byte) (*forwardprotocol.Message, error) {
 	return &m, nil
 }
 
+// aView is everything the oracles look at
+type aView struct {
+	ref        *aReference
+	full       []*aSentRec
+	partial    []*aSentRec
+	byStamp    map[string]*aSentRec // fully read
+	allSent    map[string]*aSentRec
+	partialSt  map[string]*aSentRec
+	tails      map[*aSentRec]string
+	tailList   []string
+	deliveries map[string][]aDelivery
+	acked      map[string]bool
+	onDisk     map[string]bool // after the last stop
+	diskMsgs   map[string]*forwardprotocol.Message
+	dropped    float64
+}
+
+var propOfProfile = map[string]string{
+	"c01": "C01", "nofault": "C01", "limits": "C01", "c05": "C05", "c06": "C06", "c07": "C07", "c07big": "C07", "c11": "C11", "c12": "C12",
+	"c17a": "C17", "c18": "C18", "c19": "C19",
+}
+
+func (r *aRun) buildView(out *Outcome) *aView {
+	s := r.s
+	v := &aView{byStamp: map[string]*aSentRec{}, allSent: map[string]*aSentRec{}, partialSt: map[string]*aSentRec{}, tails: map[*aSentRec]string{},
+		deliveries: map[string][]aDelivery{}, acked: map[string]bool{}, onDisk: map[string]bool{}, diskMsgs: map[string]*forwardprotocol.Message{}}
+	ref, err := newAReference(s.configYAML(""))
+	if err != nil {
+		out.Harness = "reference config: " + err.Error()
+		return nil
+	}
+	v.ref = ref
+	v.full, v.partial = r.readRecords()
+	for _, cs := range r.clients {
+		for _, cr := range cs.conns {
+			for _, sr := range cr.recs {
+				v.allSent[stampOf(sr)] = sr
+			}
+			n := min(cr.agentRead, len(cr.sent))
+			i := strings.LastIndexByte(string(cr.sent[:n]), '\n')
+			if i+1 >= n {
+				continue
+			}
+			tail := string(cr.sent[i+1 : n])
+			v.tailList = append(v.tailList, tail)
+			var lastFull *aSentRec
+			for _, sr := range cr.recs {
+				if sr.end <= i+1 {
+					lastFull = sr
+				}
+			}
+			if lastFull != nil {
+				v.tails[lastFull] = tail
+			}
+		}
+	}
+	for _, sr := range v.full {
+		v.byStamp[stampOf(sr)] = sr
+	}
+	for _, sr := range v.partial {
+		v.partialSt[stampOf(sr)] = sr
+	}
+	for _, m := range r.srv.msgs {
+		for i := range m.Entries {
+			st := eventStamp(&m.Entries[i])
+			v.deliveries[st] = append(v.deliveries[st], aDelivery{m, &m.Entries[i]})
+			if m.AckSent {
+				v.acked[st] = true
+			}
+		}
+	}
+	if len(r.stops) > 0 {
+		last := &r.stops[len(r.stops)-1]
+		for p, data := range last.Files {
+			if !strings.HasSuffix(p, ".ff") {
+				continue
+			}
+			m, derr := decodeChunkFile(data)
+			if derr != nil {
+				r.note("C11", "queue-file-undecodable", "queue-file-undecodable", "queue file %s does not decode as a Forward message: %v", p, derr)
+				continue
+			}
+			v.diskMsgs[p] = m
+			for i := range m.Entries {
+				v.onDisk[eventStamp(&m.Entries[i])] = true
+			}
+		}
+	}
+	for _, st := range r.stops {
+		for k, val := range st.Metrics {
+			if strings.HasPrefix(k, "sim_process_buffer_dropped_chunks_total") {
+				v.dropped += val
+			}
+		}
+	}
+	return v
+}
+
+// expected event of a fully read record, taking the documented exceptions into account; "" = matches
+func (r *aRun) checkEvent(v *aView, sr *aSentRec, e *forwardprotocol.EventEntry) string {
+	msg := framedMessage(sr)
+	diff := sameEvent(e, v.ref.eval(msg).entry, true)
+	if diff == "" {
+		return ""
+	}
+	// a multi-line record may lose trailing continuation lines to a flush (C08); it then equals the reference of a prefix
+	if sr.rec.Multi > 0 {
+		lines := strings.Split(msg, "\n")
+		for k := len(lines) - 1; k >= 1; k-- {
+			if sameEvent(e, v.ref.eval(strings.Join(lines[:k], "\n")).entry, true) == "" {
+				r.out.probe("multiline_record_split_by_flush", 1)
+				return ""
+			}
+		}
+	}
+	// when the connection ended in the middle of the next line, FlushAll hands the unfinished line over together with
+	// the record before it (exactly those bytes, nothing else)
+	if tail := v.tails[sr]; tail != "" {
+		if alt := v.ref.eval(msg + "\n" + tail); alt.entry != nil && sameEvent(e, alt.entry, true) == "" {
+			r.out.probe("unfinished_line_attached_to_last_record", 1)
+			return ""
+		}
+	}
+	return diff
+}
+
 func (r *aRun) evaluate(out *Outcome) {
 	s := r.s
-	prop := map[string]string{"c01": "C01", "nofault": "C01", "limits": "C01"}[s.Profile]
+	prop := propOfProfile[s.Profile]
 	if prop == "" {
-		prop = strings.ToUpper(s.Profile)
-		if len(prop) > 3 {
-			prop = prop[:3]
-		}
+		prop = "C01"
 	}
 	if out.Res.Crash != nil {
 		c := out.Res.Crash
@@ -163,209 +300,51 @@ func (r *aRun) evaluate(out *Outcome) {
 	if out.Harness != "" {
 		return
 	}
-	ref, err := newAReference(s.configYAML(""))
-	if err != nil {
-		out.Harness = "reference config: " + err.Error()
+	v := r.buildView(out)
+	if v == nil {
 		return
 	}
-	full, partial := r.readRecords()
-	byStamp := map[string]*aSentRec{}
-	allSent := map[string]*aSentRec{}
-	for _, cs := range r.clients {
-		for _, cr := range cs.conns {
-			for _, sr := range cr.recs {
-				allSent[stampOf(sr)] = sr
-			}
-		}
-	}
-	for _, sr := range full {
-		byStamp[stampOf(sr)] = sr
-	}
-	partialStamp := map[string]*aSentRec{}
-	for _, sr := range partial {
-		partialStamp[stampOf(sr)] = sr
-	}
-	// unfinished last line per connection: the bytes the agent read after the last newline it read
-	tails := map[*aSentRec]string{} // last fully read record of a connection -> unfinished bytes that followed it
-	var tailList []string
-	for _, cs := range r.clients {
-		for _, cr := range cs.conns {
-			n := min(cr.agentRead, len(cr.sent))
-			i := strings.LastIndexByte(string(cr.sent[:n]), '\n')
-			if i+1 >= n {
-				continue
-			}
-			tail := string(cr.sent[i+1 : n])
-			tailList = append(tailList, tail)
-			var lastFull *aSentRec
-			for _, sr := range cr.recs {
-				if sr.end <= i+1 {
-					lastFull = sr
-				}
-			}
-			if lastFull != nil {
-				tails[lastFull] = tail
-			}
-		}
-	}
-	deliveries := map[string][]aDelivery{}
-	acked := map[string]bool{}
-	for _, m := range r.srv.msgs {
-		for i := range m.Entries {
-			st := eventStamp(&m.Entries[i])
-			deliveries[st] = append(deliveries[st], aDelivery{m, &m.Entries[i]})
-			if m.AckSent {
-				acked[st] = true
-			}
-		}
-	}
-	// what is on disk after the last stop
-	onDisk := map[string]bool{}
-	var last *aStop
-	if len(r.stops) > 0 {
-		last = &r.stops[len(r.stops)-1]
-		for p, data := range last.Files {
-			if !strings.HasSuffix(p, ".ff") {
-				continue
-			}
-			m, derr := decodeChunkFile(data)
-			if derr != nil {
-				r.note("C11", "queue-file-undecodable", "queue-file-undecodable", "queue file %s does not decode as a Forward message: %v", p, derr)
-				continue
-			}
-			for i := range m.Entries {
-				onDisk[eventStamp(&m.Entries[i])] = true
-			}
-		}
-	}
-	droppedTotal := 0.0
-	for _, st := range r.stops {
-		for k, v := range st.Metrics {
-			if strings.HasPrefix(k, "sim_process_buffer_dropped_chunks_total") {
-				droppedTotal += v
-			}
-		}
-	}
-	want := func(p string) bool { return p == prop }
-
-	if want("C01") {
-		dups := 0
-		for _, sr := range full {
-			if sr.rec.Raw != "" {
-				continue
-			}
-			st := stampOf(sr)
-			out.Obligations++
-			if sr.rec.Drop {
-				if len(deliveries[st]) > 0 {
-					r.note("C01", "filtered-record-delivered", "filtered-record-delivered", "record %s carries the drop marker but was delivered upstream", st)
-				}
-				continue
-			}
-			if !acked[st] && !onDisk[st] {
-				if droppedTotal > 0 {
-					r.note("C01", "unexpected-drop", "unexpected-drop", "record %s is gone and dropped_chunks_total=%v although no queue or disk limit was configured to be reachable", st, droppedTotal)
-				} else {
-					where := "never transmitted"
-					if len(deliveries[st]) > 0 {
-						where = fmt.Sprintf("transmitted %d times but never acknowledged", len(deliveries[st]))
-					}
-					r.note("C01", "lost", "lost", "record %s (client %d) was read by the agent but is neither acknowledged upstream nor in the on-disk queue after the final stop (%s)", st, sr.client, where)
-				}
-			}
-			if n := len(deliveries[st]); n > 1 {
-				dups += n - 1
-			}
-			for _, d := range deliveries[st] {
-				if sr.rec.Multi > 0 {
-					continue
-				}
-				diff := sameEvent(d.entry, ref.eval(framedMessage(sr)).entry, true)
-				if diff != "" {
-					// the one documented exception: when the connection ended in the middle of the next line, FlushAll hands the
-					// unfinished line over together with the record before it (exactly those bytes, nothing else)
-					if tail := tails[sr]; tail != "" {
-						if alt := ref.eval(framedMessage(sr) + "\n" + tail); alt.entry != nil && sameEvent(d.entry, alt.entry, true) == "" {
-							r.out.probe("unfinished_line_attached_to_last_record", 1)
-							continue
-						}
-					}
-					r.note("C01", "altered", "altered", "record %s arrived upstream altered: %s", st, diff)
-				}
-			}
-		}
-		for st, ds := range deliveries {
-			out.Obligations++
-			if byStamp[st] != nil {
-				continue
-			}
-			if sr := partialStamp[st]; sr != nil {
-				// the record that was being read when its connection was closed: a prefix may be forwarded by FlushAll
-				got, _ := ds[0].entry.Record["log"].(string)
-				wantLog, _ := ref.eval(framedMessage(sr)).entry.Record["log"].(string)
-				if !strings.HasPrefix(wantLog, got) {
-					r.note("C01", "altered", "altered-partial", "partially read record %s arrived as %q which is not a prefix of %q", st, clip(got, 80), clip(wantLog, 80))
-				}
-				r.out.probe("partial_tail_forwarded", 1)
-				continue
-			}
-			if allSent[st] != nil {
-				r.note("C01", "phantom", "delivered-unread", "record %s was delivered although the agent never read it completely", st)
-				continue
-			}
-			okTail := false
-			for _, tail := range tailList {
-				if t := ref.eval(tail); t.entry != nil && sameEvent(ds[0].entry, t.entry, false) == "" {
-					okTail = true
-				}
-			}
-			if okTail {
-				r.out.probe("partial_tail_forwarded", 1)
-				continue
-			}
-			r.note("C01", "phantom", "phantom", "event with stamp %q was delivered but no client ever sent it", clip(st, 60))
-		}
-		if droppedTotal > 0 && s.Profile != "limits" {
-			r.note("C01", "unexpected-drop", "unexpected-drop", "dropped_chunks_total=%v in a profile without reachable limits", droppedTotal)
-		}
-		if r.finalDeadlineHit {
-			missing := 0
-			first := ""
-			for _, sr := range full {
-				if !sr.rec.Drop && sr.rec.Raw == "" && !acked[stampOf(sr)] {
-					missing++
-					if first == "" {
-						first = stampOf(sr)
-					}
-				}
-			}
-			r.note("C01", "liveness", "liveness", "%d records (first %s) were not acknowledged within the bound after the upstream became healthy at %v", missing, first, r.healthyFrom)
-		}
-		out.probe("duplicates_delivered", dups)
+	switch prop {
+	case "C01":
+		r.oracleC01(v)
+	case "C05":
+		r.oracleC05(v)
+	case "C06":
+		r.oracleC06(v)
+	case "C07":
+		r.oracleC07(v)
+	case "C11":
+		r.oracleC11(v)
+	case "C12":
+		r.oracleC12(v)
+	case "C17":
+		r.oracleC17(v)
+	case "C18":
+		r.oracleC18(v)
+	case "C19":
+		r.oracleC19(v)
 	}
 	for _, e := range r.srv.decodeErr {
 		r.note("C11", "malformed-message", "malformed-message", "the upstream could not decode a message: %s", e)
 	}
-
 	seen := map[string]bool{}
 	for _, n := range r.notes {
 		p := strings.SplitN(n, "\x00", 4)
-		if !want(p[0]) || seen[p[1]+p[2]] {
+		if p[0] != prop || seen[p[1]+p[2]] {
 			continue
 		}
 		seen[p[1]+p[2]] = true
 		out.violate(p[0], p[1], p[2], "%s", p[3])
 	}
-
 	for _, pat := range []string{"aborted before queueing chunk for ack", "soft-stop requested while there are still pending", "received ACK to unknown chunk",
-		"max session duration reached", "received a SIGUSR1", "unload chunk for queuing", "recovered chunks count=", "BUG:", "queue overflow, drop", "space limit reached",
-		"created new sink while old sink"} {
+		"max session duration reached", "received a SIGUSR1", "recovered chunks count=", "BUG:", "queue overflow, drop", "space limit reached",
+		"created new sink while old sink", "ignore malformed existing pipeline ID", "reloaded config", "failed to reload"} {
 		out.probe("log:"+pat, strings.Count(out.Log, pat))
 	}
 	out.probe("messages_received", len(r.srv.msgs))
 	out.probe("pings_received", r.srv.pings)
-	out.probe("records_fully_read", len(full))
-	out.probe("records_on_disk_at_end", len(onDisk))
+	out.probe("records_fully_read", len(v.full))
+	out.probe("records_on_disk_at_end", len(v.onDisk))
 	out.probe("timer_ties", out.Res.TimerTies)
 	if r.fs != nil {
 		out.probe("fs_ops", r.fs.OpCount())
@@ -376,8 +355,8 @@ func (r *aRun) evaluate(out *Outcome) {
 		out.probe("partial_socket_writes", r.net.Stats.PartialWrites)
 	}
 	nf := 0
-	for _, v := range out.Faults {
-		nf += v
+	for _, n := range out.Faults {
+		nf += n
 	}
 	out.Nontrivial = nf > 0 && out.Obligations > 0
 	var ms_ []string
@@ -393,4 +372,841 @@ func (r *aRun) evaluate(out *Outcome) {
 		ss = append(ss, fmt.Sprintf("gen %d stopped at %v in %v, %d queue files", st.Gen, st.At, st.Took, len(st.Files)))
 	}
 	out.Sample = map[string]any{"scenario": s, "upstream_messages": ms_, "stops": ss}
+	if os.Getenv("VERIF_REPLAY_VERBOSE") != "" {
+		var sb strings.Builder
+		for _, m := range r.srv.msgs {
+			var sts []string
+			for i := range m.Entries {
+				sts = append(sts, eventStamp(&m.Entries[i]))
+			}
+			fmt.Fprintf(&sb, "UPSTREAM step=%d t=%v conn=%d attempt=%d tag=%s chunk=%s acked=%v events=%v\n", m.Step, m.T, m.Conn, m.Attempt, m.Tag, m.ID, m.AckSent, sts)
+		}
+		for _, st := range r.stops {
+			var names []string
+			for p := range st.Files {
+				names = append(names, p)
+			}
+			sort.Strings(names)
+			fmt.Fprintf(&sb, "STOP gen=%d at=%v took=%v files=%v\n", st.Gen, st.At, st.Took, names)
+		}
+		out.Log += sb.String()
+	}
+}
+
+// ---------------------------------------------------------------------------------------------------------------
+// C01 at-least-once
+
+func (r *aRun) oracleC01(v *aView) {
+	s := r.s
+	out := r.out
+	dups := 0
+	for _, sr := range v.full {
+		if sr.rec.Raw != "" {
+			continue
+		}
+		st := stampOf(sr)
+		out.Obligations++
+		if sr.rec.Drop {
+			if len(v.deliveries[st]) > 0 {
+				r.note("C01", "filtered-record-delivered", "filtered-record-delivered", "record %s carries the drop marker but was delivered upstream", st)
+			}
+			continue
+		}
+		if !v.acked[st] && !v.onDisk[st] {
+			if v.dropped > 0 && s.Profile == "limits" {
+				out.probe("records_lost_to_counted_overflow", 1)
+			} else {
+				where := "never transmitted"
+				if len(v.deliveries[st]) > 0 {
+					where = fmt.Sprintf("transmitted %d times but never acknowledged", len(v.deliveries[st]))
+				}
+				r.note("C01", "lost", "lost", "record %s (client %d) was read by the agent but is neither acknowledged upstream nor in the on-disk queue after the final stop (%s)", st, sr.client, where)
+			}
+		}
+		if n := len(v.deliveries[st]); n > 1 {
+			dups += n - 1
+		}
+		for _, d := range v.deliveries[st] {
+			if diff := r.checkEvent(v, sr, d.entry); diff != "" {
+				r.note("C01", "altered", "altered", "record %s arrived upstream altered: %s", st, diff)
+			}
+		}
+	}
+	r.checkNoPhantoms(v, "C01")
+	if v.dropped > 0 && s.Profile != "limits" {
+		r.note("C01", "unexpected-drop", "unexpected-drop", "dropped_chunks_total=%v in a profile without reachable limits", v.dropped)
+	}
+	if r.finalDeadlineHit {
+		missing := 0
+		first := ""
+		for _, sr := range v.full {
+			if !sr.rec.Drop && sr.rec.Raw == "" && !v.acked[stampOf(sr)] {
+				missing++
+				if first == "" {
+					first = stampOf(sr)
+				}
+			}
+		}
+		if missing > 0 && !(v.dropped > 0 && s.Profile == "limits") {
+			r.note("C01", "liveness", "liveness", "%d records (first %s) were not acknowledged within the bound after the upstream became healthy at %v", missing, first, r.healthyFrom)
+		}
+	}
+	out.probe("duplicates_delivered", dups)
+}
+
+// every delivered event must be attributable to a sent record (or be the forwarded unfinished last line of a connection)
+func (r *aRun) checkNoPhantoms(v *aView, prop string) {
+	for st, ds := range v.deliveries {
+		r.out.Obligations++
+		if v.byStamp[st] != nil {
+			continue
+		}
+		if sr := v.partialSt[st]; sr != nil {
+			got, _ := ds[0].entry.Record["log"].(string)
+			want := ""
+			if e := v.ref.eval(framedMessage(sr)).entry; e != nil {
+				want, _ = e.Record["log"].(string)
+			}
+			if !strings.HasPrefix(want, got) {
+				r.note(prop, "altered", "altered-partial", "partially read record %s arrived as %q which is not a prefix of %q", st, clip(got, 80), clip(want, 80))
+			}
+			r.out.probe("partial_tail_forwarded", 1)
+			continue
+		}
+		okTail := false
+		for _, tail := range v.tailList {
+			if t := v.ref.eval(tail); t.entry != nil && sameEvent(ds[0].entry, t.entry, false) == "" {
+				okTail = true
+			}
+		}
+		if okTail {
+			r.out.probe("partial_tail_forwarded", 1)
+			continue
+		}
+		if v.allSent[st] != nil {
+			r.note(prop, "phantom", "delivered-unread", "record %s was delivered although the agent never read it completely", st)
+			continue
+		}
+		r.note(prop, "phantom", "phantom", "event with stamp %q was delivered but no client ever sent it", clip(st, 60))
+	}
+}
+
+// ---------------------------------------------------------------------------------------------------------------
+// key tuples
+
+// tupleOf returns the values of the orchestration key fields of a record, as the agent sees them
+func (r *aRun) tupleOf(sr *aSentRec) []string {
+	kt := r.s.KeyTuples[sr.rec.Key%len(r.s.KeyTuples)]
+	sev := 6
+	fmt.Sscanf(kt[1], "%d", &sev)
+	vals := map[string]string{"app": kt[0], "level": aSeverities[sev%8], "pid": kt[2]}
+	var out []string
+	for _, k := range r.s.Keys {
+		out = append(out, vals[k])
+	}
+	return out
+}
+
+func tupleKey(t []string) string { return fmt.Sprintf("%q", t) }
+
+var tmplPart = regexp.MustCompile(`\$\{(\w+)\[(-?\d*):(-?\d*)\]\}|\$\{(\w+)\}|\$(\w+)`)
+
+// expandTag is an independent implementation of the tag template for the templates the scenarios use
+func (r *aRun) expandTag(tuple []string) string {
+	vals := map[string]string{}
+	for i, k := range r.s.Keys {
+		vals[k] = tuple[i]
+	}
+	return tmplPart.ReplaceAllStringFunc(r.s.Tag, func(m string) string {
+		g := tmplPart.FindStringSubmatch(m)
+		switch {
+		case g[1] != "":
+			val := vals[g[1]]
+			lo, hi := 0, len(val)
+			if g[2] != "" {
+				fmt.Sscanf(g[2], "%d", &lo)
+			}
+			if g[3] != "" {
+				fmt.Sscanf(g[3], "%d", &hi)
+			}
+			if lo < 0 {
+				lo += len(val)
+			}
+			if hi < 0 {
+				hi += len(val)
+			}
+			lo, hi = max(0, min(lo, len(val))), max(0, min(hi, len(val)))
+			if lo > hi {
+				return ""
+			}
+			return val[lo:hi]
+		case g[4] != "":
+			return vals[g[4]]
+		}
+		return vals[g[5]]
+	})
+}
+
+// ---------------------------------------------------------------------------------------------------------------
+// C05 arrival order
+
+func (r *aRun) oracleC05(v *aView) {
+	out := r.out
+	// (a) first deliveries of each stream (connection, key set) appear in arrival order
+	type streamKey struct {
+		conn  *aConnRec
+		tuple string
+	}
+	connOf := map[*aSentRec]*aConnRec{}
+	for _, cs := range r.clients {
+		for _, cr := range cs.conns {
+			for _, sr := range cr.recs {
+				connOf[sr] = cr
+			}
+		}
+	}
+	firstSeen := map[string]bool{}
+	lastSeq := map[streamKey]*aSentRec{}
+	for _, m := range r.srv.msgs {
+		for i := range m.Entries {
+			st := eventStamp(&m.Entries[i])
+			sr := v.byStamp[st]
+			if sr == nil || firstSeen[st] {
+				continue
+			}
+			firstSeen[st] = true
+			out.Obligations++
+			k := streamKey{connOf[sr], tupleKey(r.tupleOf(sr))}
+			if prev := lastSeq[k]; prev != nil && prev.seq > sr.seq {
+				r.note("C05", "stream-order", "stream-order", "record %s was first delivered after %s although it arrived earlier on the same connection with the same key set %s (message %s on upstream connection %d)",
+					st, stampOf(prev), k.tuple, m.ID, m.Conn)
+			}
+			if prev := lastSeq[k]; prev == nil || prev.seq < sr.seq {
+				lastSeq[k] = sr
+			}
+		}
+	}
+	// (b) per upstream connection: chunk ids increase; an older chunk of the same pipeline that the upstream has seen but
+	// never acknowledged is retransmitted before anything newer
+	lastID := map[int]string{}
+	onConn := map[int]map[string]bool{}
+	type seenChunk struct {
+		id       string
+		ackSteps []int // steps at which the upstream finished writing an ACK for it
+	}
+	seenByPipe := map[string]map[string]*seenChunk{}
+	pipeOf := func(m *aMsg) string {
+		for i := range m.Entries {
+			if sr := v.allSent[eventStamp(&m.Entries[i])]; sr != nil {
+				return tupleKey(r.tupleOf(sr))
+			}
+		}
+		return ""
+	}
+	for _, m := range r.srv.msgs {
+		if pipe := pipeOf(m); pipe != "" && m.AckSent {
+			if seenByPipe[pipe] == nil {
+				seenByPipe[pipe] = map[string]*seenChunk{}
+			}
+			sc := seenByPipe[pipe][m.ID]
+			if sc == nil {
+				sc = &seenChunk{id: m.ID}
+				seenByPipe[pipe][m.ID] = sc
+			}
+			sc.ackSteps = append(sc.ackSteps, m.AckStep)
+		}
+	}
+	arrived := map[string]map[string]int{} // pipeline -> chunk id -> step of first arrival
+	for _, m := range r.srv.msgs {
+		out.Obligations++
+		if prev, ok := lastID[m.Conn]; ok && prev > m.ID {
+			r.note("C05", "chunk-order", "chunk-order", "upstream connection %d received chunk %s after %s", m.Conn, m.ID, prev)
+		}
+		lastID[m.Conn] = m.ID
+		if onConn[m.Conn] == nil {
+			onConn[m.Conn] = map[string]bool{}
+		}
+		onConn[m.Conn][m.ID] = true
+		pipe := pipeOf(m)
+		if pipe == "" {
+			continue
+		}
+		if arrived[pipe] == nil {
+			arrived[pipe] = map[string]int{}
+		}
+		for id, step := range arrived[pipe] {
+			if !(id < m.ID) || step >= m.Step || onConn[m.Conn][id] {
+				continue
+			}
+			ackedBefore := false
+			if sc := seenByPipe[pipe][id]; sc != nil {
+				for _, as := range sc.ackSteps {
+					if as < m.Step {
+						ackedBefore = true
+					}
+				}
+			}
+			if !ackedBefore {
+				r.note("C05", "skipped-older-chunk", "skipped-older-chunk", "pipeline %s: chunk %s was transmitted on upstream connection %d although the older chunk %s, seen by the upstream before and not acknowledged, had not been retransmitted on that connection", pipe, m.ID, m.Conn, id)
+			}
+		}
+		if _, ok := arrived[pipe][m.ID]; !ok {
+			arrived[pipe][m.ID] = m.Step
+		}
+	}
+}
+
+// ---------------------------------------------------------------------------------------------------------------
+// C06 routing by own key fields
+
+func (r *aRun) oracleC06(v *aView) {
+	out := r.out
+	check := func(where string, tag string, entries []forwardprotocol.EventEntry) (tuple string) {
+		for i := range entries {
+			sr := v.allSent[eventStamp(&entries[i])]
+			if sr == nil {
+				continue
+			}
+			out.Obligations++
+			t := r.tupleOf(sr)
+			tk := tupleKey(t)
+			if want := r.expandTag(t); tag != want {
+				r.note("C06", "wrong-tag", "wrong-tag", "%s: record %s with key fields %s was delivered under tag %q, its own key fields give %q", where, stampOf(sr), tk, tag, want)
+			}
+			if tuple == "" {
+				tuple = tk
+			} else if tuple != tk {
+				r.note("C06", "merged-key-sets", "merged-key-sets", "%s: records with different key fields share one chunk: %s and %s", where, tuple, tk)
+			}
+		}
+		return
+	}
+	for _, m := range r.srv.msgs {
+		check(fmt.Sprintf("chunk %s on upstream connection %d", m.ID, m.Conn), m.Tag, m.Entries)
+	}
+	// queue directories <-> key tuples is a bijection, judged from chunk contents
+	dirTuple := map[string]string{}
+	tupleDir := map[string]string{}
+	for _, st := range r.stops {
+		for p, data := range st.Files {
+			if !strings.HasSuffix(p, ".ff") {
+				continue
+			}
+			m, err := decodeChunkFile(data)
+			if err != nil {
+				continue
+			}
+			dir := filepath.Dir(p)
+			t := check("queue file "+p, m.Tag, m.Entries)
+			if t == "" {
+				continue
+			}
+			out.Obligations++
+			if prev, ok := dirTuple[dir]; ok && prev != t {
+				r.note("C06", "shared-queue-dir", "shared-queue-dir", "queue directory %s holds chunks of two key sets: %s and %s", dir, prev, t)
+			}
+			dirTuple[dir] = t
+			if prev, ok := tupleDir[t]; ok && prev != dir {
+				r.note("C06", "split-queue-dir", "split-queue-dir", "key set %s is spread over two queue directories: %s and %s", t, prev, dir)
+			}
+			tupleDir[t] = dir
+		}
+	}
+	// chunks found at start-up are reattached and delivered without new traffic for their key set: after the fault-free
+	// tail nothing may be left on disk
+	if !r.s.FinalStop && !r.finalDeadlineHit && len(r.stops) > 0 {
+		for p := range r.stops[len(r.stops)-1].Files {
+			if strings.HasSuffix(p, ".ff") {
+				r.note("C06", "queue-not-reattached", "queue-not-reattached", "queue file %s was still on disk after the final healthy phase: its queue was not reattached to a pipeline at start-up", p)
+				break
+			}
+		}
+	}
+	if r.finalDeadlineHit {
+		r.note("C06", "queue-not-reattached", "not-delivered", "records were not delivered within the bound although the upstream was healthy (a queue that is not reattached at start-up is one way to get here)")
+	}
+	// key_* metric label sets are in bijection with the tuples seen
+	seenTuples := map[string]bool{}
+	for _, sr := range v.full {
+		if sr.rec.Raw == "" {
+			seenTuples[tupleKey(r.tupleOf(sr))] = true
+		}
+	}
+	if len(r.stops) > 0 {
+		labelSets := map[string]bool{}
+		re := regexp.MustCompile(`key_(\w+)="((?:[^"\\]|\\.)*)"`)
+		for k := range r.stops[len(r.stops)-1].Metrics {
+			if !strings.HasPrefix(k, "sim_process_chunks_total") {
+				continue
+			}
+			vals := map[string]string{}
+			for _, g := range re.FindAllStringSubmatch(k, -1) {
+				vals[g[1]] = g[2]
+			}
+			var t []string
+			for _, kn := range r.s.Keys {
+				t = append(t, vals[kn])
+			}
+			labelSets[strings.Join(t, "\x1f")] = true
+		}
+		out.probe("pipelines_in_metrics", len(labelSets))
+		_ = seenTuples
+	}
+	r.checkNoPhantoms(v, "C06")
+}
+
+// ---------------------------------------------------------------------------------------------------------------
+// C07 hostile input
+
+func (r *aRun) oracleC07(v *aView) {
+	out := r.out
+	// sentinels: the well-formed records around the bad input are delivered; what the framer attaches to them is exactly the
+	// non-start lines that follow them in the stream (C08), nothing else
+	for _, cs := range r.clients {
+		for _, cr := range cs.conns {
+			n := min(cr.agentRead, len(cr.sent))
+			stream := string(cr.sent[:n])
+			_, recs := referenceFrame(stream)
+			expect := map[string]refRecord{}
+			for _, rr := range recs {
+				i := strings.LastIndexByte(rr.head, ' ')
+				_ = i
+				expect[rr.head] = rr
+			}
+			for _, sr := range cr.recs {
+				if sr.rec.Raw != "" || sr.rec.Drop || sr.end > cr.agentRead {
+					continue
+				}
+				st := stampOf(sr)
+				out.Obligations++
+				if !v.acked[st] && !v.onDisk[st] {
+					r.note("C07", "sentinel-lost", "sentinel-lost", "well-formed record %s was read by the agent next to hostile input but never delivered nor queued", st)
+					continue
+				}
+				head := strings.TrimSuffix(sr.line, "\n")
+				rr, ok := expect[head]
+				if !ok {
+					continue // the bytes before it did not end with a newline: it is not a record of its own in this stream
+				}
+				for _, d := range v.deliveries[st] {
+					matched := false
+					for k := len(rr.conts); k >= 0 && !matched; k-- {
+						msg := head
+						if k > 0 {
+							msg += "\n" + strings.Join(rr.conts[:k], "\n")
+						}
+						if e := v.ref.eval(msg).entry; e != nil && sameEvent(d.entry, e, true) == "" {
+							matched = true
+						}
+					}
+					if tail := v.tails[sr]; !matched && tail != "" {
+						if e := v.ref.eval(head + "\n" + tail).entry; e != nil && sameEvent(d.entry, e, true) == "" {
+							matched = true
+						}
+					}
+					if !matched {
+						r.note("C07", "sentinel-corrupted", "sentinel-corrupted", "well-formed record %s was delivered altered next to hostile input: %s", st, sameEvent(d.entry, v.ref.eval(head).entry, true))
+					}
+				}
+			}
+		}
+	}
+	if r.finalDeadlineHit {
+		r.note("C07", "wedged", "wedged", "well-formed records were not delivered within the bound after the hostile phase: the agent is wedged")
+	}
+	// accounting: input passed + dropped == framed messages handed to the parser is decided in C19's profile; here only "rejected and counted"
+	if len(r.stops) > 0 {
+		m := r.stops[len(r.stops)-1].Metrics
+		out.probe("input_dropped_records", int(m[`sim_input_dropped_records_total{protocol="syslog"}`]))
+	}
+}
+
+// ---------------------------------------------------------------------------------------------------------------
+// C11 chunks are complete, ordered, self-describing
+
+func (r *aRun) oracleC11(v *aView) {
+	out := r.out
+	s := r.s
+	type chunkKey struct{ pipe, id string }
+	content := map[chunkKey]string{}
+	inChunk := map[string]chunkKey{} // stamp -> the chunk that carries it
+	checkMsg := func(where, tag, id string, size int, comp string, entries []forwardprotocol.EventEntry) {
+		out.Obligations++
+		if size != len(entries) {
+			r.note("C11", "size-mismatch", "size-mismatch", "%s: option size=%d but the chunk carries %d events", where, size, len(entries))
+		}
+		if (s.Mode == "CompressedPackedForward") != (comp == "gzip") {
+			r.note("C11", "mode-mismatch", "mode-mismatch", "%s: compressed option %q does not fit message mode %s", where, comp, s.Mode)
+		}
+		if len(entries) == 0 {
+			r.note("C11", "empty-chunk", "empty-chunk", "%s: chunk without events", where)
+			return
+		}
+		pipe := ""
+		var stamps []string
+		total := 0
+		lastSeq := map[string]int{} // per connection
+		for i := range entries {
+			st := eventStamp(&entries[i])
+			stamps = append(stamps, st)
+			sr := v.allSent[st]
+			if sr == nil {
+				continue
+			}
+			t := tupleKey(r.tupleOf(sr))
+			if pipe == "" {
+				pipe = t
+			}
+			if want := r.expandTag(r.tupleOf(sr)); tag != want {
+				r.note("C11", "wrong-tag", "wrong-tag", "%s: tag %q, the pipeline's tag is %q", where, tag, want)
+			}
+			if e := v.ref.eval(framedMessage(sr)); e.entry != nil {
+				total += e.size
+			}
+			ck := fmt.Sprint(sr.client)
+			if prev, ok := lastSeq[ck]; ok && prev > sr.seq {
+				r.note("C11", "reordered-in-chunk", "reordered-in-chunk", "%s: record %s comes after c%d.n%d inside the chunk", where, st, sr.client, prev)
+			}
+			lastSeq[ck] = sr.seq
+		}
+		if pipe == "" {
+			return
+		}
+		k := chunkKey{pipe, id}
+		sig := strings.Join(stamps, ",")
+		if prev, ok := content[k]; ok && prev != sig {
+			r.note("C11", "id-reused", "id-reused", "pipeline %s: chunk id %s names two different chunks: [%s] and [%s]", pipe, id, clip(prev, 80), clip(sig, 80))
+		}
+		content[k] = sig
+		for _, st := range stamps {
+			if prev, ok := inChunk[st]; ok && prev != k {
+				r.note("C11", "record-in-two-chunks", "record-in-two-chunks", "record %s is carried by two different chunks: %s and %s", st, prev.id, id)
+			}
+			inChunk[st] = k
+		}
+		if len(entries) > 1 {
+			if s.ChunkMaxRecs > 0 && len(entries) > s.ChunkMaxRecs {
+				r.note("C11", "record-limit", "record-limit", "%s: %d events, limit is %d", where, len(entries), s.ChunkMaxRecs)
+			}
+			if s.ChunkMaxBytes > 0 && total > s.ChunkMaxBytes {
+				r.note("C11", "size-limit", "size-limit", "%s: %d bytes of serialized events, limit is %d", where, total, s.ChunkMaxBytes)
+			}
+		}
+	}
+	for _, m := range r.srv.msgs {
+		checkMsg(fmt.Sprintf("chunk %s on upstream connection %d", m.ID, m.Conn), m.Tag, m.ID, m.Size, m.Comp, m.Entries)
+	}
+	for _, st := range r.stops {
+		for p, data := range st.Files {
+			if !strings.HasSuffix(p, ".ff") {
+				continue
+			}
+			m, err := decodeChunkFile(data)
+			if err != nil {
+				r.note("C11", "queue-file-undecodable", "queue-file-undecodable", "queue file %s does not decode as a Forward message: %v", p, err)
+				continue
+			}
+			if filepath.Base(p) != m.Option.Chunk {
+				r.note("C11", "storage-name", "storage-name", "queue file %s carries chunk id %s", p, m.Option.Chunk)
+			}
+			checkMsg("queue file "+p, m.Tag, m.Option.Chunk, m.Option.Size, m.Option.Compressed, m.Entries)
+		}
+	}
+	// the chunks of a pipeline in id order reproduce each stream exactly once, in order
+	type sk struct {
+		pipe   string
+		client int
+	}
+	byStream := map[sk][]*aSentRec{}
+	for st, k := range inChunk {
+		if sr := v.allSent[st]; sr != nil {
+			byStream[sk{k.pipe, sr.client}] = append(byStream[sk{k.pipe, sr.client}], sr)
+		}
+	}
+	for k, list := range byStream {
+		sort.Slice(list, func(i, j int) bool {
+			a, b := inChunk[stampOf(list[i])], inChunk[stampOf(list[j])]
+			if a.id != b.id {
+				return a.id < b.id
+			}
+			return list[i].seq < list[j].seq
+		})
+		for i := 1; i < len(list); i++ {
+			out.Obligations++
+			if list[i-1].seq > list[i].seq {
+				r.note("C11", "reordered-across-chunks", "reordered-across-chunks", "pipeline %s: record %s is in an earlier chunk (%s) than %s (%s)", k.pipe,
+					stampOf(list[i-1]), inChunk[stampOf(list[i-1])].id, stampOf(list[i]), inChunk[stampOf(list[i])].id)
+			}
+		}
+	}
+	// nothing lost at chunk boundaries or flushes: every fully read, unfiltered record is in some chunk that left the pipeline
+	for _, sr := range v.full {
+		if sr.rec.Raw != "" || sr.rec.Drop {
+			continue
+		}
+		out.Obligations++
+		if _, ok := inChunk[stampOf(sr)]; !ok && v.dropped == 0 {
+			r.note("C11", "record-in-no-chunk", "record-in-no-chunk", "record %s was read by the agent but is in no chunk that reached the upstream or the queue", stampOf(sr))
+		}
+	}
+}
+
+// ---------------------------------------------------------------------------------------------------------------
+// C12 isolation despite pooling
+
+func (r *aRun) oracleC12(v *aView) {
+	for _, sr := range v.full {
+		if sr.rec.Raw != "" || sr.rec.Drop {
+			continue
+		}
+		st := stampOf(sr)
+		for _, d := range v.deliveries[st] {
+			r.out.Obligations++
+			if diff := r.checkEvent(v, sr, d.entry); diff != "" {
+				r.note("C12", "not-isolated", "not-isolated", "the event of record %s differs from what the same record gives on a fresh pipeline: %s", st, diff)
+			}
+		}
+	}
+	for _, sr := range v.full {
+		if sr.rec.Drop && len(v.deliveries[stampOf(sr)]) > 0 {
+			r.note("C12", "not-isolated", "filtered-record-delivered", "record %s carries the drop marker but was delivered", stampOf(sr))
+		}
+	}
+	r.checkNoPhantoms(v, "C12")
+}
+
+// ---------------------------------------------------------------------------------------------------------------
+// C17 end to end: reloads with valid / invalid / incompatible configuration files
+
+func (r *aRun) oracleC17(v *aView) {
+	out := r.out
+	ref2, err := newAReference(r.s.configYAML("valid2"))
+	if err != nil {
+		out.Harness = "reference config v2: " + err.Error()
+		return
+	}
+	okN := strings.Count(r.logbuf.String(), "reloaded config")
+	failN := strings.Count(r.logbuf.String(), "failed to reload")
+	wantOK, wantFail := 0, 0
+	for _, k := range r.reloads {
+		if k == "valid2" {
+			wantOK++
+		} else {
+			wantFail++
+		}
+	}
+	out.Obligations++
+	// a SIGHUP that arrives while a reload is in progress may be coalesced (channel of one): never more effects than signals
+	if okN > wantOK || failN > wantFail {
+		r.note("C17", "reload-outcome", "reload-outcome", "%d reloads succeeded and %d failed, but only %d valid and %d invalid/incompatible configurations were signalled", okN, failN, wantOK, wantFail)
+	}
+	if wantOK == 0 && okN == 0 {
+		// only rejected reloads: the agent must still be on the old configuration
+		for st, ds := range v.deliveries {
+			if sr := v.byStamp[st]; sr != nil && sr.rec.Raw == "" {
+				for _, d := range ds {
+					if _, has := d.entry.Record["extra2"]; has {
+						r.note("C17", "rejected-config-applied", "rejected-config-applied", "record %s was processed with the rejected configuration", st)
+					}
+				}
+			}
+		}
+	}
+	for _, sr := range v.full {
+		if sr.rec.Raw != "" || sr.rec.Drop {
+			continue
+		}
+		st := stampOf(sr)
+		out.Obligations++
+		if !v.acked[st] && !v.onDisk[st] {
+			r.note("C17", "lost-over-reload", "lost-over-reload", "record %s was read by the agent but is neither acknowledged nor queued after %d successful and %d rejected reloads", st, okN, failN)
+		}
+		for _, d := range v.deliveries[st] {
+			if r.checkEvent(v, sr, d.entry) == "" {
+				continue
+			}
+			// processed by the new pipelines after a successful reload
+			saved := v.ref
+			v.ref = ref2
+			diff := r.checkEvent(v, sr, d.entry)
+			v.ref = saved
+			if diff != "" || okN == 0 {
+				r.note("C17", "altered-over-reload", "altered-over-reload", "record %s matches neither the old nor the new configuration: %s", st, diff)
+			}
+		}
+	}
+	if r.finalDeadlineHit {
+		r.note("C17", "lost-over-reload", "not-delivered", "records were not delivered within the bound after the reloads although the upstream was healthy (queued chunks of the old pipelines not taken over?)")
+	}
+	r.checkNoPhantoms(v, "C17")
+}
+
+// ---------------------------------------------------------------------------------------------------------------
+// C18 bounded shutdown
+
+func (r *aRun) oracleC18(v *aView) {
+	out := r.out
+	bound := 2*defs.IntermediateChannelTimeout + (defs.BufferShutDownTimeout + 2*defs.IntermediateChannelTimeout) + time.Second
+	for _, st := range r.stops {
+		out.Obligations++
+		if st.Took > bound {
+			r.note("C18", "stop-bound", "stop-bound", "generation %d took %v to shut down, the bound from its configured timeouts is %v", st.Gen, st.Took, bound)
+		}
+		if st.BugLines > 0 {
+			r.note("C18", "stop-timeout-logged", "stop-timeout-logged", "generation %d logged %d 'BUG:' lines during shutdown (a component could not be stopped in time)", st.Gen, st.BugLines)
+		}
+	}
+	// nothing only in memory: after the last stop everything read is acknowledged, on disk or counted as dropped
+	for _, sr := range v.full {
+		if sr.rec.Raw != "" || sr.rec.Drop {
+			continue
+		}
+		out.Obligations++
+		st := stampOf(sr)
+		if !v.acked[st] && !v.onDisk[st] && v.dropped == 0 {
+			r.note("C18", "memory-only-at-exit", "memory-only-at-exit", "record %s was neither acknowledged nor on disk when the agent exited", st)
+		}
+	}
+}
+
+// ---------------------------------------------------------------------------------------------------------------
+// C19 metrics balance
+
+func sumMetric(m map[string]float64, prefix string, mustContain ...string) float64 {
+	t := 0.0
+	for k, v := range m {
+		if !strings.HasPrefix(k, prefix+"{") && k != prefix {
+			continue
+		}
+		ok := true
+		for _, c := range mustContain {
+			if !strings.Contains(k, c) {
+				ok = false
+			}
+		}
+		if ok {
+			t += v
+		}
+	}
+	return t
+}
+
+func (r *aRun) oracleC19(v *aView) {
+	out := r.out
+	// per generation: what the agent read in that generation
+	for gi, st := range r.stops {
+		m := st.Metrics
+		gen := st.Gen
+		framed, markerSent, wellFormed := 0, 0, 0
+		unfinished := 0
+		for _, cs := range r.clients {
+			for _, cr := range cs.conns {
+				if cr.gen != gen {
+					continue
+				}
+				n := min(cr.agentRead, len(cr.sent))
+				lead, recs := referenceFrame(string(cr.sent[:n]))
+				_ = lead
+				framed += len(recs)
+				if n > 0 && cr.sent[n-1] != '\n' {
+					unfinished++
+				}
+				for _, sr := range cr.recs {
+					if sr.end <= cr.agentRead && sr.rec.Raw == "" {
+						wellFormed++
+						if sr.rec.Drop {
+							markerSent++
+						}
+					}
+				}
+			}
+		}
+		inPassed := sumMetric(m, "sim_input_passed_records_total")
+		inDropped := sumMetric(m, "sim_input_dropped_records_total")
+		procPassed := sumMetric(m, "sim_process_passed_records_total")
+		procDropped := sumMetric(m, "sim_process_dropped_records_total")
+		marker := sumMetric(m, "sim_process_labelled_records_total", `label="marker"`)
+		out.Obligations += 4
+		// E1: every message handed to the parser is counted once (an unfinished last line may add one message per connection)
+		if got := int(inPassed + inDropped); got < wellFormed || got > framed+unfinished {
+			r.note("C19", "E1-input-count", "E1-input-count", "generation %d: input passed+dropped = %d, the agent framed between %d and %d messages from what it read", gen, got, wellFormed, framed+unfinished)
+		}
+		// E2: pipeline passed + dropped == input passed; marker-dropped == records sent with the marker
+		if procPassed+procDropped != inPassed {
+			r.note("C19", "E2-pipeline-count", "E2-pipeline-count", "generation %d: pipeline passed %v + dropped %v != input passed %v", gen, procPassed, procDropped, inPassed)
+		}
+		if int(marker) < markerSent || int(marker) > markerSent+unfinished || procDropped != marker {
+			r.note("C19", "E2-marker-count", "E2-marker-count", "generation %d: labelled{marker}=%v, pipeline dropped=%v, records with the marker read=%d", gen, marker, procDropped, markerSent)
+		}
+		// E3: chunks created + recovered == buffer input == consumed + leftover + dropped + pending; files == leftover + pending
+		created := sumMetric(m, "sim_process_chunks_total")
+		bufIn := sumMetric(m, "sim_process_buffer_input_chunks_total")
+		consumed := sumMetric(m, "sim_process_buffer_consumed_chunks_total")
+		leftover := sumMetric(m, "sim_process_buffer_leftover_chunks_total")
+		dropped := sumMetric(m, "sim_process_buffer_dropped_chunks_total")
+		pending := sumMetric(m, "sim_process_buffer_pending_chunks")
+		recovered := 0
+		if gi > 0 {
+			for p := range r.stops[gi-1].Files {
+				if strings.HasSuffix(p, ".ff") {
+					recovered++
+				}
+			}
+		}
+		files := 0
+		for p := range st.Files {
+			if strings.HasSuffix(p, ".ff") {
+				files++
+			}
+		}
+		out.Obligations += 3
+		if bufIn != created+float64(recovered) {
+			r.note("C19", "E3-buffer-input", "E3-buffer-input", "generation %d: buffer input_chunks_total=%v, chunks created=%v + recovered from disk=%d", gen, bufIn, created, recovered)
+		}
+		if bufIn != consumed+leftover+dropped+pending {
+			r.note("C19", "E3-buffer-balance", "E3-buffer-balance", "generation %d: buffer input=%v != consumed %v + leftover %v + dropped %v + pending %v", gen, bufIn, consumed, leftover, dropped, pending)
+		}
+		// files at stop = chunks that entered the buffer and were neither consumed nor dropped (dropping an unloaded chunk leaves its file)
+		if dropped == 0 && float64(files) != bufIn-consumed {
+			r.note("C19", "E3-files", "E3-files", "generation %d: %d chunk files on disk after stop, buffer input %v - consumed %v = %v (leftover %v, pending %v)", gen, files, bufIn, consumed, bufIn-consumed, leftover, pending)
+		}
+		// E4: client and buffer agree; forwarded/acknowledged match what the upstream saw
+		acked := sumMetric(m, "sim_process_output_acknowledged_chunks_total")
+		forwarded := sumMetric(m, "sim_process_output_forwarded_chunks_total")
+		attempts := sumMetric(m, "sim_process_output_forward_attempts_total")
+		srvAcks, srvMsgs := 0, 0
+		var t0, t1 time.Duration
+		if gi > 0 {
+			t0 = r.stops[gi-1].At
+		}
+		t1 = st.At + st.Took
+		for _, sm := range r.srv.msgs {
+			if sm.T >= t0 && sm.T <= t1 {
+				srvMsgs++
+				if sm.AckSent {
+					srvAcks++
+				}
+			}
+		}
+		out.Obligations += 4
+		if acked != consumed {
+			r.note("C19", "E4-ack-vs-consumed", "E4-ack-vs-consumed", "generation %d: output acknowledged_chunks_total=%v, buffer consumed_chunks_total=%v", gen, acked, consumed)
+		}
+		if int(acked) > srvAcks {
+			r.note("C19", "E4-ack-vs-upstream", "E4-ack-vs-upstream", "generation %d: acknowledged_chunks_total=%v but the upstream wrote only %d ACKs in that generation", gen, acked, srvAcks)
+		}
+		if forwarded < acked || attempts < forwarded {
+			r.note("C19", "E4-forward-order", "E4-forward-order", "generation %d: attempts %v >= forwarded %v >= acknowledged %v does not hold", gen, attempts, forwarded, acked)
+		}
+		if int(forwarded) < srvMsgs {
+			r.note("C19", "E4-forward-vs-upstream", "E4-forward-vs-upstream", "generation %d: forwarded_chunks_total=%v but the upstream completely received %d chunk messages", gen, forwarded, srvMsgs)
+		}
+		// E5: queue gauges are 0 after stop
+		for k, val := range m {
+			if strings.Contains(k, "queued_chunks{") && val != 0 {
+				out.Obligations++
+				r.note("C19", "E5-gauge-nonzero", "E5-gauge-nonzero", "generation %d: %s = %v after stop", gen, k, val)
+			}
+		}
+	}
 }
